@@ -100,8 +100,10 @@ impl Monitor for C09 {
 
     fn generate(&self, rng: &mut Rng, tier: Tier) -> J {
         let format = *rng.pick(&["text", "json", "csv"]);
-        if (tier == Tier::Thorough && rng.chance(1, 120)) || (tier == Tier::Quick && rng.chance(1, 300)) {
-            let year = rng.range(1990, 2037);
+        if (tier == Tier::Thorough && rng.chance(1, 120)) || (tier == Tier::Quick && rng.chance(1, 100)) {
+            // (one walk in four in a year whose 1 November / 1 March / 1 April is a Sunday: the day daylight saving changes in several
+            // zones is then the first of the month, where a truncation passes through)
+            let year = if rng.chance(1, 4) { *rng.pick(&[2020i64, 2026, 2015, 2009, 1998, 2031, 2036, 2018, 2029]) } else { rng.range(1990, 2037) };
             let lines = calendar_walk_lines(rng, year);
             let inner = json!({"kind": "hostile", "tables": hostile_real_table(), "stmt": *rng.pick(WALK_STATEMENTS), "files": [[lines.join("\n"), "\n"]], "format": format});
             return json!({"kind": "tz", "zone": *rng.pick(ZONES), "inner": inner});
